@@ -11,9 +11,10 @@ package sherpa
 //@   property C18 C02
 //@   safety
 //@   requires s != nil && s.configuration != nil && w != nil && resp != nil && resp.Body != nil && rlog != nil
-//@   modifies ghost(w).started, ghost(w).status, gvar unflushed, gvar evBroken, ghost remaining, ghost backing, SimpleRingBuffer.data
+//@   modifies ghost(w).started, ghost(w).status, gvar unflushed, gvar evBroken, gvar streamMode, ghost remaining, ghost backing, SimpleRingBuffer.data
 //@   loop 1 invariant (old(ghost(w).started) ==> ghost(w).started) && (old(evBroken) ==> evBroken) && state != nil && fresh(state) && rc != nil && state.lastChunkBuffer != nil && fresh(state.lastChunkBuffer) && rbOK(state.lastChunkBuffer)
 //@   loop 1 invariant state.isStreaming ==> unflushed == 0 || unflushed == old(unflushed) || evBroken
+//@   loop 1 invariant state.isStreaming == loopentry(state.isStreaming) && state.isStreaming == streamMode
 //@   ensures old(ghost(w).started) ==> ghost(w).started
 //@   ensures !errorsAs(res2, "*core.ResponseStartedError") && !errorsIs(res2, core.ErrCircuitOpen)
 
